@@ -3,17 +3,17 @@
 import json, os, re, shutil, glob
 RAW = '/root/seeds_raw'
 confirm = {}
-for f in glob.glob(RAW + '/confirm_*.log') + glob.glob(RAW + '/w2/confirm*.log') + glob.glob(RAW + '/w3/confirm*.log') + glob.glob(RAW + '/w4/confirm*.log'):
+for f in glob.glob(RAW + '/confirm_*.log') + glob.glob(RAW + '/w2/confirm*.log') + glob.glob(RAW + '/w3/confirm*.log') + glob.glob(RAW + '/w4/confirm*.log') + glob.glob(RAW + '/w5/confirm*.log'):
     for line in open(f):
-        m = re.match(r'RESULT /root/seeds_raw/(?:w[234]/)?(C\d+) (\d): demo_without_change_exit=(\d+) demo_with_change_exit=(\d+) suite_with_change_exit=(\d+) \((\d+) passed (\d+) failed\)', line)
+        m = re.match(r'RESULT /root/seeds_raw/(?:w[2345]/)?(C\d+) (\d): demo_without_change_exit=(\d+) demo_with_change_exit=(\d+) suite_with_change_exit=(\d+) \((\d+) passed (\d+) failed\)', line)
         if m:
-            confirm[(m.group(1), int(m.group(2)) + (2 if '/w2/' in line else 4 if '/w3/' in line else 6 if '/w4/' in line else 0))] = dict(demo_without_change_exit=int(m.group(3)), demo_with_change_exit=int(m.group(4)),
+            confirm[(m.group(1), int(m.group(2)) + (2 if '/w2/' in line else 4 if '/w3/' in line else 6 if '/w4/' in line else 8 if '/w5/' in line else 0))] = dict(demo_without_change_exit=int(m.group(3)), demo_with_change_exit=int(m.group(4)),
                                                          suite_with_change_exit=int(m.group(5)), suite_passed=int(m.group(6)), suite_failed=int(m.group(7)))
 props = {json.loads(l)['id']: json.loads(l) for l in open('/verif/properties.jsonl')}
 n = 0
 for pid in sorted(props):
-    for k in (1, 2, 3, 4, 5, 6, 7, 8):
-        src = f'{RAW}/{pid}' if k <= 2 else (f'{RAW}/w2/{pid}' if k <= 4 else (f'{RAW}/w3/{pid}' if k <= 6 else f'{RAW}/w4/{pid}'))
+    for k in (1, 2, 3, 4, 5, 6, 7, 8, 9, 10):
+        src = f'{RAW}/{pid}' if k <= 2 else (f'{RAW}/w2/{pid}' if k <= 4 else (f'{RAW}/w3/{pid}' if k <= 6 else (f'{RAW}/w4/{pid}' if k <= 8 else f'{RAW}/w5/{pid}')))
         kk = (k - 1) % 2 + 1
         if not os.path.exists(f'{src}/change_{kk}.diff'):
             continue
@@ -34,7 +34,7 @@ for pid in sorted(props):
             'property_title': props[pid]['title'],
             'round': (k + 1) // 2,
             'origin': 'written by an independent sub-agent that was given only the property text and a scratch git worktree of /repo (nothing from /verif)',
-            'base_commit': 'aa96047 (pinned 6415632 + the two fix: commits)',
+            'base_commit': 'aa96047 (pinned 6415632 + the first two fix: commits); the patch also applies to 2ff1c82 (third fix: commit)',
             'needs_to_manifest': 'see notes.md (the sub-agent\'s own description of what the change needs in order to show)',
             'confirmed_by_me': {
                 'how': 'tools/confirm_seed.sh: fresh scratch worktree of /repo under /tmp (removed afterwards): demo alone on the unchanged tree; git apply patch.diff; demo again; demo removed; full existing suite (cargo test --workspace --no-fail-fast --offline)',
